@@ -176,7 +176,13 @@ def stub_parse(ex, s, b):
         if b2 == b and len(s2.chars) == len(s.chars) and seq(ex, s2, s) is True: return r
     ex.stubs.add('stub:FromStr<' + b + '> on symbolic text')
     okb = ex.fresh('parse_ok_' + b, 'bool')
-    if ex.branch(okb):
+    feasible_ok = True
+    if b in ('Ipv4Addr', 'Ipv6Addr', 'IpAddr'):
+        # necessary conditions for any textual IP address: only hex digits, '.' and ':'; at least 2 chars
+        legal = z_and(*[char_pred(ex, c, lambda v: (48 <= v <= 57) or (65 <= v <= 70) or (97 <= v <= 102) or v in (46, 58), [(48, 57), (65, 70), (97, 102), (46, 46), (58, 58)]) for c in s.chars])
+        if len(s.chars) < 2 or legal is False: feasible_ok = False
+        elif legal is not True: ex.assume(z3.Implies(okb, legal))
+    if feasible_ok and ex.branch(okb):
         if b in INT_W: r = ok(ex.fresh('parsed_' + b, b))
         elif b == 'Ipv4Addr': r = ok(Agg('Ipv4Addr', None, [Cell(ex.fresh('ip4', 'u8')) for _ in range(4)]))
         elif b == 'Ipv6Addr': r = ok(Agg('Ipv6Addr', None, [Cell(ex.fresh('ip6', 'u16')) for _ in range(8)]))
